@@ -134,7 +134,7 @@ CLAIMED.update({
         text='Deductive proof of the exit behaviour of the two commands: every os.Exit in internal/cmd carries a non-zero status; `check` returns normally only when the number of error-severity diagnostics it obtained from GetErrorsCount on the analysed file is zero; '
              '`run` returns normally only when parsing produced no error and RunProgram returned no error (every failure path ends in os.Exit); the JSON encoders of values use only the library renderings their String() methods use (closed `calls` list).',
         note='Not proved: what is printed (diagnostic lines, JSON rendering - encoding/json and fmt are outside the model), the equivalence of the three input channels (the readers are trusted contracts that only frame which option fields they set), '
-             'and that GetErrorsCount counts error severities (its result is a named, uninterpreted count).',
+             'the exact value of the error count beyond zero / non-zero; that the in-place sort of the diagnostics keeps the same diagnostics (sort.Slice is modelled as an arbitrary rearrangement).',
         ref='DESIGN.md section 5 C20'),
 })
 
@@ -143,6 +143,7 @@ CLAIMED.update({
         text='Deductive proof of the per-function clauses that make the checker exact about variable names: a repeated declaration yields exactly one DuplicateVariable at the name token and keeps the first declaration; '
              'a first declaration yields no report and registers the variable as declared and unused; a use of a name that is not declared yields an UnboundVariable at the use, a use of a declared name is resolved to its declaration, '
              'yields no UnboundVariable and removes the name from the unused set; expression checks never touch the set of declarations; reports are only appended (earlier ones are kept); a type report arises only for two different types; '
+             'every argument of a call, whatever the type of its parameter, is visited (its variable is marked used and resolved); the unused-variable reports sit at the name token of the first declaration; '
              'the send-all / capped-scope flags are written only where the frame allows (checkSentValue, checkExpression, checkDestination cannot touch them) and are restored by checkSource.',
         note='NOT decided: the "never cries wolf" half as a whole (that a script which is well typed by the language rules gets no error) - it needs a typing judgment as a recursive specification that the checker is proved against; '
              'the once-per-variable count over a whole script (the clauses are per call) and the unused-variable loop (map iteration) are argued from these clauses, not machine-checked. One genuine defect of this property was repaired (see known_findings.json).',
